@@ -17,7 +17,7 @@ struct CountMM   // stateless counting memory manager: every byte the tree takes
 	~CountMM() = default;
 	CountMM& operator=(const CountMM&) = delete;
 	void* Allocate(size_t size) { void* p = std::malloc(size); if (p == nullptr) throw std::bad_alloc(); ++liveBlocks; liveBytes += long(size); return p; }
-	void Deallocate(void* p, size_t size) noexcept { --liveBlocks; liveBytes -= long(size); std::free(p); }
+	void Deallocate(void* p, size_t size) noexcept { --liveBlocks; liveBytes -= long(size); std::memset(p, 0xDD, size); __asm__ __volatile__("" : : "r"(p) : "memory"); std::free(p); }   // poison: a stale read is not silently 'still valid'
 };
 long CountMM::liveBlocks = 0; long CountMM::liveBytes = 0;
 
@@ -271,24 +271,14 @@ struct Cfg
 			case 'w': sd[0].c.Swap(sd[1].c); sd[0].tw.swap(sd[1].tw); out += 'W'; break;
 			case 'u': case 'v': {   // u: side.MergeFrom(other)   v: other.MergeTo(side)  -- both move other's items into side
 				Side& d = s; Side& src = sd[1 - side];
-				Twin srcBefore = src.tw, dstBefore = d.tw;
 				if (k0 == 'u') d.c.MergeFrom(src.c); else src.c.MergeTo(d.c);
 				Twin rest;
-				// the one recorded deviation: multi-key fast concatenation when src.last is equivalent to dst.first puts the
-				// source items BEFORE the equivalent destination items (the generic and the linear merge put them after)
-				bool eqBoundary = multi && !srcBefore.empty() && !dstBefore.empty() && srcBefore.back().first == dstBefore.front().first;
 				for (auto& e : src.tw)
 				{
 					size_t lb = twLb(d.tw, e.first), ub = twUb(d.tw, e.first);
 					if (multi || lb == ub) d.tw.insert(d.tw.begin() + ub, e); else rest.push_back(e);
 				}
 				src.tw.swap(rest);
-				if (eqBoundary && hasSerial)
-				{
-					Twin concat = srcBefore; concat.insert(concat.end(), dstBefore.begin(), dstBefore.end());
-					Twin actual; for (It i = d.c.GetBegin(); !(i == d.c.GetEnd()) && actual.size() <= concat.size(); ++i) actual.push_back({ keyOf(i), serOf(i) });
-					if (actual == concat && !(actual == d.tw)) { d.tw = actual; out += "!KNOWN:merge-fast-equal-boundary-order "; }
-				}
 				tok("U%u,%u", unsigned(d.c.GetCount()), unsigned(src.c.GetCount()));
 				fullCheck(d, false);
 				fullCheck(src, false);
